@@ -8,7 +8,7 @@ LEVEL = 'model_checking'
 def run(tier):
     chk = common.Check('C01', tier, LEVEL)
     exe = common.build_binary('tzscan', ['tzscan.cpp'], 'opt')
-    grid = 300 if tier == 'quick' else 30
+    grid = int(os.environ.get('VERIF_GRID', 60 if tier == 'quick' else 1))
     fstride = 97 if tier == 'quick' else 7
     tzconf.check_database(chk, exe, 'extended', os.path.join(common.REPO, 'src/ace_time/zonedbx'), grid, fstride, 'zonedbx')
     chk.add(exhaustive=True, rule='every zone of zonedbx swept at %d s over 2000..2049, each change bisected to the second' % grid)
